@@ -674,6 +674,32 @@ package nfa
 //@   after call compileUTF8Range: 0x80 <= lastarg1 && lastarg1 <= lastarg2 && lastarg2 <= 0x10FFFF
 //@   after call buildUTF8NonASCIIBranches: len(nonASCIIRanges) == 1 && nonASCIIRanges[0][0] <= 0x80 && nonASCIIRanges[0][1] >= 0x10FFFF
 
+// literals: the bytes a literal rune is compiled to are its UTF-8 encoding (positional value decN, lead and
+// continuation bytes in their legal ranges); ASCII case helpers are exact. Surrogate code points are encoded
+// positionally like any other 3-byte value (what regexp does with them is outside this contract).
+//@ func encodeRune
+//@   props C15 C07
+//@   requires len(buf) >= 4 && 0 <= r && r <= 0x10FFFF
+//@   modifies buf[*]
+//@   ensures (r < 0x80 ==> result == 1) && (0x80 <= r && r < 0x800 ==> result == 2) && (0x800 <= r && r < 0x10000 ==> result == 3) && (0x10000 <= r ==> result == 4)
+//@   ensures result == 1 ==> int(buf[0]) == r
+//@   ensures result == 2 ==> dec2(buf[0], buf[1]) == r && 194 <= buf[0] && buf[0] <= 223 && 128 <= buf[1] && buf[1] <= 191
+//@   ensures result == 3 ==> dec3(buf[0], buf[1], buf[2]) == r && 224 <= buf[0] && buf[0] <= 239 && 128 <= buf[1] && buf[1] <= 191 && 128 <= buf[2] && buf[2] <= 191
+//@   ensures result == 4 ==> dec4(buf[0], buf[1], buf[2], buf[3]) == r && 240 <= buf[0] && buf[0] <= 244 && 128 <= buf[1] && buf[1] <= 191 && 128 <= buf[2] && buf[2] <= 191 && 128 <= buf[3] && buf[3] <= 191
+//@   ensures forall k :: result <= k && k < len(buf) ==> buf[k] == old(buf[k])
+
+//@ func isASCIILetter
+//@   props C15 C07
+//@   ensures result <==> ((65 <= r && r <= 90) || (97 <= r && r <= 122))
+
+//@ func toUpperASCII
+//@   props C15 C07
+//@   ensures (97 <= r && r <= 122 ==> result == r - 32) && (!(97 <= r && r <= 122) ==> result == r)
+
+//@ func toLowerASCII
+//@   props C15 C07
+//@   ensures (65 <= r && r <= 90 ==> result == r + 32) && (!(65 <= r && r <= 90) ==> result == r)
+
 // ---- character-class repetition searcher (C19): closed form = runs of table bytes ----
 
 //@ spec func ccWin(s *CharClassSearcher, h []byte, i int) bool = 0 <= i && i + s.minMatch <= len(h) && (forall k :: i <= k && k < i + s.minMatch ==> s.membership[h[k]])
